@@ -107,27 +107,57 @@ def oracle(tools, model, src, w, t, c):
     ok, msg = tools.accepts(out)
     if not ok:
         probs.append(("rejected", "the pretty-printed text is rejected by check-express: " + " | ".join(msg.strip().split("\n")[:3])))
-    # equivalence
+    # the output must be readable at all: an exception of our lexer/splitter on exppp's OUTPUT is the violation itself
+    ds = X.Decls(fold(X.lex(src)))          # input side: an exception here is a machinery error
+    toks_out = None
     try:
-        ds, do = X.Decls(fold(X.lex(src))), X.Decls(fold(X.lex(body_of(out))))
-        e = equivalent(model, ds, do)
-        if e:
-            probs.append(("not-equivalent", e))
-    except (X.LexError, X.DeclError) as ex:
-        if ok:
-            probs.append(("not-equivalent", f"output cannot be split into the source's declarations: {ex}"))
+        toks_out = X.lex(body_of(out))
+    except X.LexError as ex:
+        probs.append(("unreadable", f"the pretty-printed text cannot be split into tokens ({ex}); " + locate(out, ex)))
+    if toks_out is not None:
+        try:
+            do = X.Decls(fold(toks_out))
+            e = equivalent(model, ds, do)
+            if e:
+                probs.append(("not-equivalent", e))
+        except X.DeclError as ex:
+            probs.append(("not-equivalent", f"the output cannot be split into the source's declarations: {ex}"))
     # stability
-    if ok:
+    if ok and toks_out is not None:
         rc2, out2, err2 = tools.exppp(out, w, t, c)
         if rc2 != 0 or out2 is None:
             probs.append(("unstable", f"printing the output again fails (exit {rc2}): {err2[-200:]}"))
         else:
-            t1, t2 = resplit(X.lex(body_of(out))), resplit(X.lex(body_of(out2)))
-            if t1 != t2:
-                j = next((k for k in range(min(len(t1), len(t2))) if t1[k] != t2[k]), min(len(t1), len(t2)))
-                probs.append(("unstable", "second printing differs in more than line breaks: " +
-                              X.src_text(t1[max(0, j - 6):j + 6]) + "  ->  " + X.src_text(t2[max(0, j - 6):j + 6])))
+            try:
+                toks2 = X.lex(body_of(out2))
+            except X.LexError as ex:
+                toks2 = None
+                probs.append(("unstable", f"the second printing cannot be split into tokens ({ex}); " + locate(out2, ex)))
+            if toks2 is not None:
+                t1, t2 = resplit(toks_out), resplit(toks2)
+                if t1 != t2:
+                    j = next((k for k in range(min(len(t1), len(t2))) if t1[k] != t2[k]), min(len(t1), len(t2)))
+                    probs.append(("unstable", "second printing differs in more than line breaks: " +
+                                  X.src_text(t1[max(0, j - 6):j + 6]) + "  ->  " + X.src_text(t2[max(0, j - 6):j + 6])))
     return probs, out
+
+
+def locate(text, ex):
+    """the declaration line(s) around the place the lexer gave up"""
+    m = re.search(r"cannot lex at (.*)$", str(ex))
+    frag = None
+    if m:
+        try:
+            frag = eval(m.group(1))
+        except Exception:
+            frag = None
+    i = text.find(frag) if frag else -1
+    if i < 0:
+        return "offending text not located"
+    a = text.rfind("\n", 0, max(0, i - 1))
+    a = text.rfind("\n", 0, max(0, a)) if a > 0 else 0
+    b = text.find("\n", i)
+    return "offending declaration: " + repr(text[max(0, a):b if b >= 0 else len(text)].strip()[:300])
 
 
 def resplit(toks):
@@ -482,7 +512,12 @@ def shipped(ctx, tools, src, rel, w):
     if rc2 != 0 or out2 is None:
         ctx.violation(f"shipped-unstable:{rel}", f"printing the output of {rel} again fails", {"schema_file": rel, "exppp_args": ["-l", str(w)], "kind": "unstable"})
         return
-    t1, t2 = resplit(X.lex(body_of(out))), resplit(X.lex(body_of(out2)))
+    try:
+        t1, t2 = resplit(X.lex(body_of(out))), resplit(X.lex(body_of(out2)))
+    except X.LexError as ex:
+        ctx.violation(f"shipped-unreadable:{rel}", f"exppp -l {w} output of {rel} (or its second printing) cannot be split into tokens: {ex}",
+                      {"schema_file": rel, "exppp_args": ["-l", str(w)], "kind": "unreadable"})
+        return
     if t1 != t2:
         j = next((k for k in range(min(len(t1), len(t2))) if t1[k] != t2[k]), 0)
         ctx.violation(f"shipped-unstable:{rel}:" + "_".join(X.tok_text(x) for x in t1[max(0, j - 4):j + 4]),
